@@ -214,6 +214,30 @@ func runC20(c *Ctx) {
 	judgeAccess := func(key string, pos token.Pos, dataV, idxV ssa.Value, at *ssa.BasicBlock, width int64) {
 		lc := &linCtx{data: dataV}
 		if _, isParam := dataV.(*ssa.Parameter); !isParam {
+			// a window on the data (rest = rest[8:]) accessed at a constant offset k: inside the window — and so
+			// inside the data — when a dominating guard says len(window) ≥ k + width
+			if k, isK := constInt(idxV); isK && k >= 0 {
+				for _, cm := range cmpsAt(at) {
+					x, y, op := cm.X, cm.Y, cm.Op
+					if _, isLen := isBuiltinCall(y, "len"); isLen {
+						x, y, op = y, x, flipOp(op)
+					}
+					ln, isLen := isBuiltinCall(x, "len")
+					if !isLen || ln.Call.Args[0] != dataV {
+						continue
+					}
+					b, isB := constInt(y)
+					if !isB {
+						continue
+					}
+					if (op == token.GEQ && b >= k+width) || (op == token.GTR && b >= k+width-1) {
+						c.ok("R-UNSAFE-BOUNDS", key, pos, fmt.Sprintf("offset %d of a window known to hold at least %d bytes", k, k+width))
+						return
+					}
+				}
+				c.bad("R-UNSAFE-BOUNDS", key, pos, fmt.Sprintf("the %d-byte access at offset %d of %s is not under a guard len(%s) ≥ %d: it may read or write past the end of the slice", width, k, ksym(dataV), ksym(dataV), k+width))
+				return
+			}
 			c.undecided("R-UNSAFE-BOUNDS", key, pos, "the accessed slice is not the function's parameter")
 			return
 		}
@@ -311,6 +335,10 @@ func runC20(c *Ctx) {
 				u := lin{g.a, g.b, g.c - 1}
 				if gr, ok := g.mod8(); ok && haveRes && gr == res {
 					u = lin{g.a, g.b, g.c - 8} // same residue: strictly less means at least 8 less
+				} else if step%8 == 0 {
+					if d, ok := g.sub(init).mod8(); ok && d == 0 {
+						u = lin{g.a, g.b, g.c - 8}
+					}
 				}
 				uppers = append(uppers, u)
 			case token.LEQ:
@@ -318,7 +346,15 @@ func runC20(c *Ctx) {
 			case token.GEQ:
 				lowers = append(lowers, g)
 			case token.GTR:
-				lowers = append(lowers, lin{g.a, g.b, g.c + 1})
+				l := lin{g.a, g.b, g.c + 1}
+				// same residue (the bound differs from the variable's start by a multiple of 8, and the step is
+				// one): strictly greater means at least 8 greater
+				if step%8 == 0 {
+					if d, ok := g.sub(init).mod8(); ok && d == 0 {
+						l = lin{g.a, g.b, g.c + 8}
+					}
+				}
+				lowers = append(lowers, l)
 			}
 		}
 		loOK, hiOK := false, false
